@@ -49,10 +49,11 @@
                           (total += 25, sent_continue := True) ScFl (_flush_some)
                           ScRel (Rel Ob)
      handle_write_event   IoHwConn (R connected) IoHwReq (R requests: [] ->
-                          IoHwFlU = _flush_some WITHOUT the lock) IoHwTot (R total
+                          IoHwTry = _flush_some_if_lockable; before 8bcf05e: IoHwFlU = _flush_some WITHOUT the lock) IoHwTot (R total
                           >= send_bytes) IoHwTry (try-acquire Ob) IoHwFlL
                           IoHwNTot (R total < high watermark) IoHwNotify IoHwRel
                           IoHwExcW (W will_close in _flush_exception)
+                          (the step IoHwFlU exists only in the pre-8bcf05e shape, p_unlocked = true)
                           IoHwCwf (R cwf) IoHwTot2 (R total) IoHwWCwf IoHwWWc
                           IoHwWc (R will_close -> handle_close)
      handle_close()       HcAcq (A Ob) HcBufs (close every outbuf) HcTot (W total:=0)
@@ -110,7 +111,7 @@
      IHead id ; IRest id | IFullX id); a recv() delivers k >= 0 whole items and possibly
      an incomplete piece of the next one.
    Ghost fields (never read by the program): arrivals, starts, execs, wire,
-   produced, discarded, units, infl, wsc, closing, popped. *)
+   produced, discarded, units, infl, wsc, closing, popped, cut. *)
 From Coq Require Import List Arith Bool ZArith Lia.
 Import ListNotations.
 Open Scope nat_scope.
@@ -146,6 +147,9 @@ Record params := {
   p_sb : Z;              (* send_bytes *)
   p_clen : nat;          (* length of b"HTTP/1.1 100 Continue\r\n\r\n" *)
   p_nw : nat;            (* number of pool workers *)
+  p_unlocked : bool;     (* false: the code as it is (since 8bcf05e handle_write flushes under try-lock also when
+                            requests == []); true: the previous shape (unlocked _flush_some), kept for the
+                            refutation witness of finding F18 only *)
   p_script : list rdesc  (* the requests the client sends, in order *)
 }.
 
@@ -227,7 +231,8 @@ Record shared := {
   infl : nat;                         (* tokens accepted by send() and not yet skip()ped *)
   wsc : bool;                         (* a worker has entered send_continue() (class of F18) *)
   closing : bool;                     (* service() took its close branch (close_when_flushed was set) *)
-  popped : list nat                   (* ids removed by requests.pop(0), in order *)
+  popped : list nat;                  (* ids removed by requests.pop(0), in order *)
+  cut : nat                           (* length of the wire when handle_close discarded the pending output *)
 }.
 
 Record state := { sh : shared; io : iost; wk : nat -> wkst }.
@@ -283,31 +288,32 @@ Definition holds (l : option tid) (t : tid) : bool :=
 Definition free (l : option tid) : bool := match l with None => true | Some _ => false end.
 
 (* field setters (Coq 8.16 has no record update syntax) *)
-Definition set_requests (s : shared) v := {| requests := v; pst := pst s; sent_continue := sent_continue s; will_close := will_close s; cwf := cwf s; connected := connected s; total := total s; obs := obs s; cnt := cnt s; rlock := rlock s; olock := olock s; dlock := dlock s; queue := queue s; qwait := qwait s; qnotified := qnotified s; nxt := nxt s; arrivals := arrivals s; starts := starts s; execs := execs s; wire := wire s; produced := produced s; discarded := discarded s; units := units s; infl := infl s; wsc := wsc s; closing := closing s; popped := popped s |}.
-Definition set_pst (s : shared) v := {| requests := requests s; pst := v; sent_continue := sent_continue s; will_close := will_close s; cwf := cwf s; connected := connected s; total := total s; obs := obs s; cnt := cnt s; rlock := rlock s; olock := olock s; dlock := dlock s; queue := queue s; qwait := qwait s; qnotified := qnotified s; nxt := nxt s; arrivals := arrivals s; starts := starts s; execs := execs s; wire := wire s; produced := produced s; discarded := discarded s; units := units s; infl := infl s; wsc := wsc s; closing := closing s; popped := popped s |}.
-Definition set_sent_continue (s : shared) v := {| requests := requests s; pst := pst s; sent_continue := v; will_close := will_close s; cwf := cwf s; connected := connected s; total := total s; obs := obs s; cnt := cnt s; rlock := rlock s; olock := olock s; dlock := dlock s; queue := queue s; qwait := qwait s; qnotified := qnotified s; nxt := nxt s; arrivals := arrivals s; starts := starts s; execs := execs s; wire := wire s; produced := produced s; discarded := discarded s; units := units s; infl := infl s; wsc := wsc s; closing := closing s; popped := popped s |}.
-Definition set_will_close (s : shared) v := {| requests := requests s; pst := pst s; sent_continue := sent_continue s; will_close := v; cwf := cwf s; connected := connected s; total := total s; obs := obs s; cnt := cnt s; rlock := rlock s; olock := olock s; dlock := dlock s; queue := queue s; qwait := qwait s; qnotified := qnotified s; nxt := nxt s; arrivals := arrivals s; starts := starts s; execs := execs s; wire := wire s; produced := produced s; discarded := discarded s; units := units s; infl := infl s; wsc := wsc s; closing := closing s; popped := popped s |}.
-Definition set_cwf (s : shared) v := {| requests := requests s; pst := pst s; sent_continue := sent_continue s; will_close := will_close s; cwf := v; connected := connected s; total := total s; obs := obs s; cnt := cnt s; rlock := rlock s; olock := olock s; dlock := dlock s; queue := queue s; qwait := qwait s; qnotified := qnotified s; nxt := nxt s; arrivals := arrivals s; starts := starts s; execs := execs s; wire := wire s; produced := produced s; discarded := discarded s; units := units s; infl := infl s; wsc := wsc s; closing := closing s; popped := popped s |}.
-Definition set_connected (s : shared) v := {| requests := requests s; pst := pst s; sent_continue := sent_continue s; will_close := will_close s; cwf := cwf s; connected := v; total := total s; obs := obs s; cnt := cnt s; rlock := rlock s; olock := olock s; dlock := dlock s; queue := queue s; qwait := qwait s; qnotified := qnotified s; nxt := nxt s; arrivals := arrivals s; starts := starts s; execs := execs s; wire := wire s; produced := produced s; discarded := discarded s; units := units s; infl := infl s; wsc := wsc s; closing := closing s; popped := popped s |}.
-Definition set_total (s : shared) v := {| requests := requests s; pst := pst s; sent_continue := sent_continue s; will_close := will_close s; cwf := cwf s; connected := connected s; total := v; obs := obs s; cnt := cnt s; rlock := rlock s; olock := olock s; dlock := dlock s; queue := queue s; qwait := qwait s; qnotified := qnotified s; nxt := nxt s; arrivals := arrivals s; starts := starts s; execs := execs s; wire := wire s; produced := produced s; discarded := discarded s; units := units s; infl := infl s; wsc := wsc s; closing := closing s; popped := popped s |}.
-Definition set_obs (s : shared) v := {| requests := requests s; pst := pst s; sent_continue := sent_continue s; will_close := will_close s; cwf := cwf s; connected := connected s; total := total s; obs := v; cnt := cnt s; rlock := rlock s; olock := olock s; dlock := dlock s; queue := queue s; qwait := qwait s; qnotified := qnotified s; nxt := nxt s; arrivals := arrivals s; starts := starts s; execs := execs s; wire := wire s; produced := produced s; discarded := discarded s; units := units s; infl := infl s; wsc := wsc s; closing := closing s; popped := popped s |}.
-Definition set_cnt (s : shared) v := {| requests := requests s; pst := pst s; sent_continue := sent_continue s; will_close := will_close s; cwf := cwf s; connected := connected s; total := total s; obs := obs s; cnt := v; rlock := rlock s; olock := olock s; dlock := dlock s; queue := queue s; qwait := qwait s; qnotified := qnotified s; nxt := nxt s; arrivals := arrivals s; starts := starts s; execs := execs s; wire := wire s; produced := produced s; discarded := discarded s; units := units s; infl := infl s; wsc := wsc s; closing := closing s; popped := popped s |}.
-Definition set_rlock (s : shared) v := {| requests := requests s; pst := pst s; sent_continue := sent_continue s; will_close := will_close s; cwf := cwf s; connected := connected s; total := total s; obs := obs s; cnt := cnt s; rlock := v; olock := olock s; dlock := dlock s; queue := queue s; qwait := qwait s; qnotified := qnotified s; nxt := nxt s; arrivals := arrivals s; starts := starts s; execs := execs s; wire := wire s; produced := produced s; discarded := discarded s; units := units s; infl := infl s; wsc := wsc s; closing := closing s; popped := popped s |}.
-Definition set_olock (s : shared) v := {| requests := requests s; pst := pst s; sent_continue := sent_continue s; will_close := will_close s; cwf := cwf s; connected := connected s; total := total s; obs := obs s; cnt := cnt s; rlock := rlock s; olock := v; dlock := dlock s; queue := queue s; qwait := qwait s; qnotified := qnotified s; nxt := nxt s; arrivals := arrivals s; starts := starts s; execs := execs s; wire := wire s; produced := produced s; discarded := discarded s; units := units s; infl := infl s; wsc := wsc s; closing := closing s; popped := popped s |}.
-Definition set_dlock (s : shared) v := {| requests := requests s; pst := pst s; sent_continue := sent_continue s; will_close := will_close s; cwf := cwf s; connected := connected s; total := total s; obs := obs s; cnt := cnt s; rlock := rlock s; olock := olock s; dlock := v; queue := queue s; qwait := qwait s; qnotified := qnotified s; nxt := nxt s; arrivals := arrivals s; starts := starts s; execs := execs s; wire := wire s; produced := produced s; discarded := discarded s; units := units s; infl := infl s; wsc := wsc s; closing := closing s; popped := popped s |}.
-Definition set_queue (s : shared) v := {| requests := requests s; pst := pst s; sent_continue := sent_continue s; will_close := will_close s; cwf := cwf s; connected := connected s; total := total s; obs := obs s; cnt := cnt s; rlock := rlock s; olock := olock s; dlock := dlock s; queue := v; qwait := qwait s; qnotified := qnotified s; nxt := nxt s; arrivals := arrivals s; starts := starts s; execs := execs s; wire := wire s; produced := produced s; discarded := discarded s; units := units s; infl := infl s; wsc := wsc s; closing := closing s; popped := popped s |}.
-Definition set_qw (s : shared) v n := {| requests := requests s; pst := pst s; sent_continue := sent_continue s; will_close := will_close s; cwf := cwf s; connected := connected s; total := total s; obs := obs s; cnt := cnt s; rlock := rlock s; olock := olock s; dlock := dlock s; queue := queue s; qwait := v; qnotified := n; nxt := nxt s; arrivals := arrivals s; starts := starts s; execs := execs s; wire := wire s; produced := produced s; discarded := discarded s; units := units s; infl := infl s; wsc := wsc s; closing := closing s; popped := popped s |}.
-Definition set_nxt (s : shared) v := {| requests := requests s; pst := pst s; sent_continue := sent_continue s; will_close := will_close s; cwf := cwf s; connected := connected s; total := total s; obs := obs s; cnt := cnt s; rlock := rlock s; olock := olock s; dlock := dlock s; queue := queue s; qwait := qwait s; qnotified := qnotified s; nxt := v; arrivals := arrivals s; starts := starts s; execs := execs s; wire := wire s; produced := produced s; discarded := discarded s; units := units s; infl := infl s; wsc := wsc s; closing := closing s; popped := popped s |}.
-Definition set_arrivals (s : shared) v := {| requests := requests s; pst := pst s; sent_continue := sent_continue s; will_close := will_close s; cwf := cwf s; connected := connected s; total := total s; obs := obs s; cnt := cnt s; rlock := rlock s; olock := olock s; dlock := dlock s; queue := queue s; qwait := qwait s; qnotified := qnotified s; nxt := nxt s; arrivals := v; starts := starts s; execs := execs s; wire := wire s; produced := produced s; discarded := discarded s; units := units s; infl := infl s; wsc := wsc s; closing := closing s; popped := popped s |}.
-Definition set_starts (s : shared) v := {| requests := requests s; pst := pst s; sent_continue := sent_continue s; will_close := will_close s; cwf := cwf s; connected := connected s; total := total s; obs := obs s; cnt := cnt s; rlock := rlock s; olock := olock s; dlock := dlock s; queue := queue s; qwait := qwait s; qnotified := qnotified s; nxt := nxt s; arrivals := arrivals s; starts := v; execs := execs s; wire := wire s; produced := produced s; discarded := discarded s; units := units s; infl := infl s; wsc := wsc s; closing := closing s; popped := popped s |}.
-Definition set_execs (s : shared) v := {| requests := requests s; pst := pst s; sent_continue := sent_continue s; will_close := will_close s; cwf := cwf s; connected := connected s; total := total s; obs := obs s; cnt := cnt s; rlock := rlock s; olock := olock s; dlock := dlock s; queue := queue s; qwait := qwait s; qnotified := qnotified s; nxt := nxt s; arrivals := arrivals s; starts := starts s; execs := v; wire := wire s; produced := produced s; discarded := discarded s; units := units s; infl := infl s; wsc := wsc s; closing := closing s; popped := popped s |}.
-Definition set_wire (s : shared) v i := {| requests := requests s; pst := pst s; sent_continue := sent_continue s; will_close := will_close s; cwf := cwf s; connected := connected s; total := total s; obs := obs s; cnt := cnt s; rlock := rlock s; olock := olock s; dlock := dlock s; queue := queue s; qwait := qwait s; qnotified := qnotified s; nxt := nxt s; arrivals := arrivals s; starts := starts s; execs := execs s; wire := v; produced := produced s; discarded := discarded s; units := units s; infl := i; wsc := wsc s; closing := closing s; popped := popped s |}.
-Definition set_infl (s : shared) i := {| requests := requests s; pst := pst s; sent_continue := sent_continue s; will_close := will_close s; cwf := cwf s; connected := connected s; total := total s; obs := obs s; cnt := cnt s; rlock := rlock s; olock := olock s; dlock := dlock s; queue := queue s; qwait := qwait s; qnotified := qnotified s; nxt := nxt s; arrivals := arrivals s; starts := starts s; execs := execs s; wire := wire s; produced := produced s; discarded := discarded s; units := units s; infl := i; wsc := wsc s; closing := closing s; popped := popped s |}.
-Definition set_prod (s : shared) p u := {| requests := requests s; pst := pst s; sent_continue := sent_continue s; will_close := will_close s; cwf := cwf s; connected := connected s; total := total s; obs := obs s; cnt := cnt s; rlock := rlock s; olock := olock s; dlock := dlock s; queue := queue s; qwait := qwait s; qnotified := qnotified s; nxt := nxt s; arrivals := arrivals s; starts := starts s; execs := execs s; wire := wire s; produced := p; discarded := discarded s; units := u; infl := infl s; wsc := wsc s; closing := closing s; popped := popped s |}.
-Definition set_discarded (s : shared) v := {| requests := requests s; pst := pst s; sent_continue := sent_continue s; will_close := will_close s; cwf := cwf s; connected := connected s; total := total s; obs := obs s; cnt := cnt s; rlock := rlock s; olock := olock s; dlock := dlock s; queue := queue s; qwait := qwait s; qnotified := qnotified s; nxt := nxt s; arrivals := arrivals s; starts := starts s; execs := execs s; wire := wire s; produced := produced s; discarded := v; units := units s; infl := infl s; wsc := wsc s; closing := closing s; popped := popped s |}.
-Definition set_wsc (s : shared) v := {| requests := requests s; pst := pst s; sent_continue := sent_continue s; will_close := will_close s; cwf := cwf s; connected := connected s; total := total s; obs := obs s; cnt := cnt s; rlock := rlock s; olock := olock s; dlock := dlock s; queue := queue s; qwait := qwait s; qnotified := qnotified s; nxt := nxt s; arrivals := arrivals s; starts := starts s; execs := execs s; wire := wire s; produced := produced s; discarded := discarded s; units := units s; infl := infl s; wsc := v; closing := closing s; popped := popped s |}.
-Definition set_closing (s : shared) v := {| requests := requests s; pst := pst s; sent_continue := sent_continue s; will_close := will_close s; cwf := cwf s; connected := connected s; total := total s; obs := obs s; cnt := cnt s; rlock := rlock s; olock := olock s; dlock := dlock s; queue := queue s; qwait := qwait s; qnotified := qnotified s; nxt := nxt s; arrivals := arrivals s; starts := starts s; execs := execs s; wire := wire s; produced := produced s; discarded := discarded s; units := units s; infl := infl s; wsc := wsc s; closing := v; popped := popped s |}.
-Definition set_popped (s : shared) v := {| requests := requests s; pst := pst s; sent_continue := sent_continue s; will_close := will_close s; cwf := cwf s; connected := connected s; total := total s; obs := obs s; cnt := cnt s; rlock := rlock s; olock := olock s; dlock := dlock s; queue := queue s; qwait := qwait s; qnotified := qnotified s; nxt := nxt s; arrivals := arrivals s; starts := starts s; execs := execs s; wire := wire s; produced := produced s; discarded := discarded s; units := units s; infl := infl s; wsc := wsc s; closing := closing s; popped := v |}.
+Definition set_requests (s : shared) v := {| requests := v; pst := pst s; sent_continue := sent_continue s; will_close := will_close s; cwf := cwf s; connected := connected s; total := total s; obs := obs s; cnt := cnt s; rlock := rlock s; olock := olock s; dlock := dlock s; queue := queue s; qwait := qwait s; qnotified := qnotified s; nxt := nxt s; arrivals := arrivals s; starts := starts s; execs := execs s; wire := wire s; produced := produced s; discarded := discarded s; units := units s; infl := infl s; wsc := wsc s; closing := closing s; popped := popped s; cut := cut s |}.
+Definition set_pst (s : shared) v := {| requests := requests s; pst := v; sent_continue := sent_continue s; will_close := will_close s; cwf := cwf s; connected := connected s; total := total s; obs := obs s; cnt := cnt s; rlock := rlock s; olock := olock s; dlock := dlock s; queue := queue s; qwait := qwait s; qnotified := qnotified s; nxt := nxt s; arrivals := arrivals s; starts := starts s; execs := execs s; wire := wire s; produced := produced s; discarded := discarded s; units := units s; infl := infl s; wsc := wsc s; closing := closing s; popped := popped s; cut := cut s |}.
+Definition set_sent_continue (s : shared) v := {| requests := requests s; pst := pst s; sent_continue := v; will_close := will_close s; cwf := cwf s; connected := connected s; total := total s; obs := obs s; cnt := cnt s; rlock := rlock s; olock := olock s; dlock := dlock s; queue := queue s; qwait := qwait s; qnotified := qnotified s; nxt := nxt s; arrivals := arrivals s; starts := starts s; execs := execs s; wire := wire s; produced := produced s; discarded := discarded s; units := units s; infl := infl s; wsc := wsc s; closing := closing s; popped := popped s; cut := cut s |}.
+Definition set_will_close (s : shared) v := {| requests := requests s; pst := pst s; sent_continue := sent_continue s; will_close := v; cwf := cwf s; connected := connected s; total := total s; obs := obs s; cnt := cnt s; rlock := rlock s; olock := olock s; dlock := dlock s; queue := queue s; qwait := qwait s; qnotified := qnotified s; nxt := nxt s; arrivals := arrivals s; starts := starts s; execs := execs s; wire := wire s; produced := produced s; discarded := discarded s; units := units s; infl := infl s; wsc := wsc s; closing := closing s; popped := popped s; cut := cut s |}.
+Definition set_cwf (s : shared) v := {| requests := requests s; pst := pst s; sent_continue := sent_continue s; will_close := will_close s; cwf := v; connected := connected s; total := total s; obs := obs s; cnt := cnt s; rlock := rlock s; olock := olock s; dlock := dlock s; queue := queue s; qwait := qwait s; qnotified := qnotified s; nxt := nxt s; arrivals := arrivals s; starts := starts s; execs := execs s; wire := wire s; produced := produced s; discarded := discarded s; units := units s; infl := infl s; wsc := wsc s; closing := closing s; popped := popped s; cut := cut s |}.
+Definition set_connected (s : shared) v := {| requests := requests s; pst := pst s; sent_continue := sent_continue s; will_close := will_close s; cwf := cwf s; connected := v; total := total s; obs := obs s; cnt := cnt s; rlock := rlock s; olock := olock s; dlock := dlock s; queue := queue s; qwait := qwait s; qnotified := qnotified s; nxt := nxt s; arrivals := arrivals s; starts := starts s; execs := execs s; wire := wire s; produced := produced s; discarded := discarded s; units := units s; infl := infl s; wsc := wsc s; closing := closing s; popped := popped s; cut := cut s |}.
+Definition set_total (s : shared) v := {| requests := requests s; pst := pst s; sent_continue := sent_continue s; will_close := will_close s; cwf := cwf s; connected := connected s; total := v; obs := obs s; cnt := cnt s; rlock := rlock s; olock := olock s; dlock := dlock s; queue := queue s; qwait := qwait s; qnotified := qnotified s; nxt := nxt s; arrivals := arrivals s; starts := starts s; execs := execs s; wire := wire s; produced := produced s; discarded := discarded s; units := units s; infl := infl s; wsc := wsc s; closing := closing s; popped := popped s; cut := cut s |}.
+Definition set_obs (s : shared) v := {| requests := requests s; pst := pst s; sent_continue := sent_continue s; will_close := will_close s; cwf := cwf s; connected := connected s; total := total s; obs := v; cnt := cnt s; rlock := rlock s; olock := olock s; dlock := dlock s; queue := queue s; qwait := qwait s; qnotified := qnotified s; nxt := nxt s; arrivals := arrivals s; starts := starts s; execs := execs s; wire := wire s; produced := produced s; discarded := discarded s; units := units s; infl := infl s; wsc := wsc s; closing := closing s; popped := popped s; cut := cut s |}.
+Definition set_cnt (s : shared) v := {| requests := requests s; pst := pst s; sent_continue := sent_continue s; will_close := will_close s; cwf := cwf s; connected := connected s; total := total s; obs := obs s; cnt := v; rlock := rlock s; olock := olock s; dlock := dlock s; queue := queue s; qwait := qwait s; qnotified := qnotified s; nxt := nxt s; arrivals := arrivals s; starts := starts s; execs := execs s; wire := wire s; produced := produced s; discarded := discarded s; units := units s; infl := infl s; wsc := wsc s; closing := closing s; popped := popped s; cut := cut s |}.
+Definition set_rlock (s : shared) v := {| requests := requests s; pst := pst s; sent_continue := sent_continue s; will_close := will_close s; cwf := cwf s; connected := connected s; total := total s; obs := obs s; cnt := cnt s; rlock := v; olock := olock s; dlock := dlock s; queue := queue s; qwait := qwait s; qnotified := qnotified s; nxt := nxt s; arrivals := arrivals s; starts := starts s; execs := execs s; wire := wire s; produced := produced s; discarded := discarded s; units := units s; infl := infl s; wsc := wsc s; closing := closing s; popped := popped s; cut := cut s |}.
+Definition set_olock (s : shared) v := {| requests := requests s; pst := pst s; sent_continue := sent_continue s; will_close := will_close s; cwf := cwf s; connected := connected s; total := total s; obs := obs s; cnt := cnt s; rlock := rlock s; olock := v; dlock := dlock s; queue := queue s; qwait := qwait s; qnotified := qnotified s; nxt := nxt s; arrivals := arrivals s; starts := starts s; execs := execs s; wire := wire s; produced := produced s; discarded := discarded s; units := units s; infl := infl s; wsc := wsc s; closing := closing s; popped := popped s; cut := cut s |}.
+Definition set_dlock (s : shared) v := {| requests := requests s; pst := pst s; sent_continue := sent_continue s; will_close := will_close s; cwf := cwf s; connected := connected s; total := total s; obs := obs s; cnt := cnt s; rlock := rlock s; olock := olock s; dlock := v; queue := queue s; qwait := qwait s; qnotified := qnotified s; nxt := nxt s; arrivals := arrivals s; starts := starts s; execs := execs s; wire := wire s; produced := produced s; discarded := discarded s; units := units s; infl := infl s; wsc := wsc s; closing := closing s; popped := popped s; cut := cut s |}.
+Definition set_queue (s : shared) v := {| requests := requests s; pst := pst s; sent_continue := sent_continue s; will_close := will_close s; cwf := cwf s; connected := connected s; total := total s; obs := obs s; cnt := cnt s; rlock := rlock s; olock := olock s; dlock := dlock s; queue := v; qwait := qwait s; qnotified := qnotified s; nxt := nxt s; arrivals := arrivals s; starts := starts s; execs := execs s; wire := wire s; produced := produced s; discarded := discarded s; units := units s; infl := infl s; wsc := wsc s; closing := closing s; popped := popped s; cut := cut s |}.
+Definition set_qw (s : shared) v n := {| requests := requests s; pst := pst s; sent_continue := sent_continue s; will_close := will_close s; cwf := cwf s; connected := connected s; total := total s; obs := obs s; cnt := cnt s; rlock := rlock s; olock := olock s; dlock := dlock s; queue := queue s; qwait := v; qnotified := n; nxt := nxt s; arrivals := arrivals s; starts := starts s; execs := execs s; wire := wire s; produced := produced s; discarded := discarded s; units := units s; infl := infl s; wsc := wsc s; closing := closing s; popped := popped s; cut := cut s |}.
+Definition set_nxt (s : shared) v := {| requests := requests s; pst := pst s; sent_continue := sent_continue s; will_close := will_close s; cwf := cwf s; connected := connected s; total := total s; obs := obs s; cnt := cnt s; rlock := rlock s; olock := olock s; dlock := dlock s; queue := queue s; qwait := qwait s; qnotified := qnotified s; nxt := v; arrivals := arrivals s; starts := starts s; execs := execs s; wire := wire s; produced := produced s; discarded := discarded s; units := units s; infl := infl s; wsc := wsc s; closing := closing s; popped := popped s; cut := cut s |}.
+Definition set_arrivals (s : shared) v := {| requests := requests s; pst := pst s; sent_continue := sent_continue s; will_close := will_close s; cwf := cwf s; connected := connected s; total := total s; obs := obs s; cnt := cnt s; rlock := rlock s; olock := olock s; dlock := dlock s; queue := queue s; qwait := qwait s; qnotified := qnotified s; nxt := nxt s; arrivals := v; starts := starts s; execs := execs s; wire := wire s; produced := produced s; discarded := discarded s; units := units s; infl := infl s; wsc := wsc s; closing := closing s; popped := popped s; cut := cut s |}.
+Definition set_starts (s : shared) v := {| requests := requests s; pst := pst s; sent_continue := sent_continue s; will_close := will_close s; cwf := cwf s; connected := connected s; total := total s; obs := obs s; cnt := cnt s; rlock := rlock s; olock := olock s; dlock := dlock s; queue := queue s; qwait := qwait s; qnotified := qnotified s; nxt := nxt s; arrivals := arrivals s; starts := v; execs := execs s; wire := wire s; produced := produced s; discarded := discarded s; units := units s; infl := infl s; wsc := wsc s; closing := closing s; popped := popped s; cut := cut s |}.
+Definition set_execs (s : shared) v := {| requests := requests s; pst := pst s; sent_continue := sent_continue s; will_close := will_close s; cwf := cwf s; connected := connected s; total := total s; obs := obs s; cnt := cnt s; rlock := rlock s; olock := olock s; dlock := dlock s; queue := queue s; qwait := qwait s; qnotified := qnotified s; nxt := nxt s; arrivals := arrivals s; starts := starts s; execs := v; wire := wire s; produced := produced s; discarded := discarded s; units := units s; infl := infl s; wsc := wsc s; closing := closing s; popped := popped s; cut := cut s |}.
+Definition set_wire (s : shared) v i := {| requests := requests s; pst := pst s; sent_continue := sent_continue s; will_close := will_close s; cwf := cwf s; connected := connected s; total := total s; obs := obs s; cnt := cnt s; rlock := rlock s; olock := olock s; dlock := dlock s; queue := queue s; qwait := qwait s; qnotified := qnotified s; nxt := nxt s; arrivals := arrivals s; starts := starts s; execs := execs s; wire := v; produced := produced s; discarded := discarded s; units := units s; infl := i; wsc := wsc s; closing := closing s; popped := popped s; cut := cut s |}.
+Definition set_infl (s : shared) i := {| requests := requests s; pst := pst s; sent_continue := sent_continue s; will_close := will_close s; cwf := cwf s; connected := connected s; total := total s; obs := obs s; cnt := cnt s; rlock := rlock s; olock := olock s; dlock := dlock s; queue := queue s; qwait := qwait s; qnotified := qnotified s; nxt := nxt s; arrivals := arrivals s; starts := starts s; execs := execs s; wire := wire s; produced := produced s; discarded := discarded s; units := units s; infl := i; wsc := wsc s; closing := closing s; popped := popped s; cut := cut s |}.
+Definition set_prod (s : shared) p u := {| requests := requests s; pst := pst s; sent_continue := sent_continue s; will_close := will_close s; cwf := cwf s; connected := connected s; total := total s; obs := obs s; cnt := cnt s; rlock := rlock s; olock := olock s; dlock := dlock s; queue := queue s; qwait := qwait s; qnotified := qnotified s; nxt := nxt s; arrivals := arrivals s; starts := starts s; execs := execs s; wire := wire s; produced := p; discarded := discarded s; units := u; infl := infl s; wsc := wsc s; closing := closing s; popped := popped s; cut := cut s |}.
+Definition set_discarded (s : shared) v := {| requests := requests s; pst := pst s; sent_continue := sent_continue s; will_close := will_close s; cwf := cwf s; connected := connected s; total := total s; obs := obs s; cnt := cnt s; rlock := rlock s; olock := olock s; dlock := dlock s; queue := queue s; qwait := qwait s; qnotified := qnotified s; nxt := nxt s; arrivals := arrivals s; starts := starts s; execs := execs s; wire := wire s; produced := produced s; discarded := v; units := units s; infl := infl s; wsc := wsc s; closing := closing s; popped := popped s; cut := cut s |}.
+Definition set_wsc (s : shared) v := {| requests := requests s; pst := pst s; sent_continue := sent_continue s; will_close := will_close s; cwf := cwf s; connected := connected s; total := total s; obs := obs s; cnt := cnt s; rlock := rlock s; olock := olock s; dlock := dlock s; queue := queue s; qwait := qwait s; qnotified := qnotified s; nxt := nxt s; arrivals := arrivals s; starts := starts s; execs := execs s; wire := wire s; produced := produced s; discarded := discarded s; units := units s; infl := infl s; wsc := v; closing := closing s; popped := popped s; cut := cut s |}.
+Definition set_closing (s : shared) v := {| requests := requests s; pst := pst s; sent_continue := sent_continue s; will_close := will_close s; cwf := cwf s; connected := connected s; total := total s; obs := obs s; cnt := cnt s; rlock := rlock s; olock := olock s; dlock := dlock s; queue := queue s; qwait := qwait s; qnotified := qnotified s; nxt := nxt s; arrivals := arrivals s; starts := starts s; execs := execs s; wire := wire s; produced := produced s; discarded := discarded s; units := units s; infl := infl s; wsc := wsc s; closing := v; popped := popped s; cut := cut s |}.
+Definition set_popped (s : shared) v := {| requests := requests s; pst := pst s; sent_continue := sent_continue s; will_close := will_close s; cwf := cwf s; connected := connected s; total := total s; obs := obs s; cnt := cnt s; rlock := rlock s; olock := olock s; dlock := dlock s; queue := queue s; qwait := qwait s; qnotified := qnotified s; nxt := nxt s; arrivals := arrivals s; starts := starts s; execs := execs s; wire := wire s; produced := produced s; discarded := discarded s; units := units s; infl := infl s; wsc := wsc s; closing := closing s; popped := v; cut := cut s |}.
+Definition set_cut (s : shared) v := {| requests := requests s; pst := pst s; sent_continue := sent_continue s; will_close := will_close s; cwf := cwf s; connected := connected s; total := total s; obs := obs s; cnt := cnt s; rlock := rlock s; olock := olock s; dlock := dlock s; queue := queue s; qwait := qwait s; qnotified := qnotified s; nxt := nxt s; arrivals := arrivals s; starts := starts s; execs := execs s; wire := wire s; produced := produced s; discarded := discarded s; units := units s; infl := infl s; wsc := wsc s; closing := closing s; popped := popped s; cut := v |}.
 
 Definition set_ipc (i : iost) v := {| ipc := v; i_r := i_r i; i_w := i_w i; i_ws := i_ws i; i_items := i_items i; i_cur := i_cur i; i_comp := i_comp i |}.
 Definition set_wpc (w : wkst) v := {| wpc := v; w_cur := w_cur w; w_idx := w_idx w; w_off := w_off w; w_close := w_close w |}.
@@ -513,7 +519,9 @@ Definition io_step (s : shared) (i : iost) (e : env) : option (shared * iost * l
   | IoRcRelX => Some (set_rlock s None, goto (IoHc HcAcq false), [LRel Rq])   (* handle_error -> handle_close *)
   (* handle_write_event / handle_write *)
   | IoHwConn => Some (s, goto IoHwReq, [LR AConnected])
-  | IoHwReq => Some (s, goto (match requests s with [] => IoHwFlU fl0 | _ => IoHwTot end), [LR ARequests])
+  | IoHwReq => Some (s, goto (match requests s with
+                              | [] => if p_unlocked P then IoHwFlU fl0 else IoHwTry
+                              | _ => IoHwTot end), [LR ARequests])
   | IoHwFlU f =>
       match fl_step s f e with
       | Some (s', FCont f', l) => Some (s', goto (IoHwFlU f'), l)
@@ -546,7 +554,7 @@ Definition io_step (s : shared) (i : iost) (e : env) : option (shared * iost * l
   | IoHc h eof =>
       match h with
       | HcAcq => if free (olock s) then Some (set_olock s (Some TIo), goto (IoHc HcBufs eof), [LAcq Ob]) else None
-      | HcBufs => Some (set_discarded (set_obs s (map (fun _ => []) (obs s))) (skipn (infl s) (concat (obs s)) ++ discarded s),
+      | HcBufs => Some (set_cut (set_discarded (set_obs s (map (fun _ => []) (obs s))) (skipn (infl s) (concat (obs s)) ++ discarded s)) (length (wire s)),
                         goto (IoHc HcTot eof), [LR AOutbufs])
       | HcTot => Some (set_total s 0%Z, goto (IoHc HcConn eof), [LW ATotal])
       | HcConn => Some (set_connected s false, goto (IoHc HcNotify eof), [LW AConnected])
@@ -704,7 +712,7 @@ Definition sh0 : shared := {|
   total := 0%Z; obs := [[]]; cnt := CZero; rlock := None; olock := None; dlock := None;
   queue := 0; qwait := []; qnotified := []; nxt := 0;
   arrivals := []; starts := []; execs := []; wire := []; produced := []; discarded := []; units := [];
-  infl := 0; wsc := false; closing := false; popped := [] |}.
+  infl := 0; wsc := false; closing := false; popped := []; cut := 0 |}.
 Definition io0 : iost := {| ipc := IoRd1; i_r := false; i_w := false; i_ws := false; i_items := []; i_cur := 0; i_comp := false |}.
 Definition wk0 : wkst := {| wpc := WAcqD; w_cur := 0; w_idx := 0; w_off := 0; w_close := false |}.
 Definition init : state := {| sh := sh0; io := io0; wk := fun _ => wk0 |}.
@@ -781,8 +789,11 @@ Fixpoint owners (n : nat) (f : nat -> wkst) : nat :=
 
 (* C04_wire: transport (nothing duplicated, lost, reordered between the buffers and
    the wire) and production (what was buffered is whole units in order) *)
+Definition kept (s : shared) : list tok :=
+  firstn (cut s) (produced s) ++ skipn (cut s + length (discarded s)) (produced s).
 Definition transport_ok (s : shared) : bool :=
-  toks_eqb (wire s ++ pending s ++ discarded s) (produced s).
+  (toks_eqb (wire s ++ pending s) (kept s) &&
+   toks_eqb (discarded s) (firstn (length (discarded s)) (skipn (cut s) (produced s))))%bool.
 Definition production_ok (P : params) (s : shared) : bool :=
   (toks_eqb (produced s) (flat_map (utoks P) (units s)) && nats_eqb (resp_ids (units s)) (execs s))%bool.
 Definition wire_ok (P : params) (st : state) : bool := (transport_ok (sh st) && production_ok P (sh st))%bool.
